@@ -42,6 +42,29 @@ def handles (virt : Bool) (s : St) : String :=
 
 def tickTo (s : St) (t : Nat) : St := if t > s.now then s.withNow t else s
 
+/-- `rd=` (annotation): the expiry the implementation's read deadline timer is armed for right after the op (µs of case
+    time, read from the timer object — no waiting), `none` = no timer, `na` = not observable. The model judges it: the
+    deadline in force after the op (`a`) is the earliest value the op can have set; a timer armed for an earlier expiry
+    has NOT been renewed by this op (`early`), a timer still armed for the future without a deadline in force is `stale`,
+    no timer although a deadline is ahead is `unarmed`. Renewals are thus compared at the op itself, independent of how
+    long the harness can afford to wait. -/
+def rdl (s : St) (ws : List String) (at2 : Nat) : String :=
+  match Drv.field ws "rd" with
+  | none => ""
+  | some v =>
+    if s.closed || v == "na" then " rdl=ok"
+    else
+      let a := (s.t .r).a
+      if v == "none" then
+        match a with
+        | some w => if w > at2 + 2000 then " rdl=unarmed" else " rdl=ok"
+        | none => " rdl=ok"
+      else
+        let x := v.toNat!
+        match a with
+        | some w => if w ≤ x + 2000 then " rdl=ok" else " rdl=early"
+        | none => if x > at2 + 2000 then " rdl=stale" else " rdl=ok"
+
 /-- index of the first started callback of direction d -/
 def pendIdx (s : St) (d : Dir) : Option Nat :=
   let rec go : List Rec → Nat → Option Nat
@@ -190,10 +213,15 @@ partial def loop (h : IO.FS.Stream) (ds : DS) : IO Unit := do
       | some v => v.toNat! * 1000
       | none => num ws "ka" * 1000
     loop h { g, s := init, ka := num ws "ka" * 1000, wt := num ws "wt" * 1000, wska, virt := ws.contains "virt" }
-  | "O" :: "req" :: _ =>
-    -- HTTP exchange: OnComplete arms the write deadline (WriteTimeout), the response is written, the keep-alive
-    -- read deadline is renewed; once the client holds the whole response (at2) the server's queue is empty
+  | "O" :: "req" :: rq =>
+    -- HTTP exchange: OnComplete (request arrival) arms the write deadline (WriteTimeout) and nothing else; the
+    -- response is written; the keep-alive read deadline is renewed by the RESPONSE FLUSH (flushResponse), i.e. not
+    -- before the handler has returned — `req slow <ms>`: not before at + ms. Once the client holds the whole response
+    -- (at2) the server's queue is empty
     let at2 := num ws "at2"
+    let slow := match rq with
+      | "slow" :: ms :: _ => ms.toNat! * 1000
+      | _ => 0
     let (s, k1) := reconcile ds.g ds.s st
     let s := tickTo s at_
     let s := if ds.wt > 0 then applyOp ds.g s (.set .w (at_ + ds.wt)) else s
@@ -205,8 +233,8 @@ partial def loop (h : IO.FS.Stream) (ds : DS) : IO Unit := do
     | .open =>
       let s := tickTo s at2
       -- the backlog (if any) has been flushed: a write that leaves a backlog followed by the draining flush
-      let s := [Op.write .short, Op.flush .full, Op.set .r (at_ + ds.ka)].foldl (applyOp ds.g) s
-      IO.println s!"R st={k1} post={kindOf s.cause}"
+      let s := [Op.write .short, Op.flush .full, Op.set .r (at_ + slow + ds.ka)].foldl (applyOp ds.g) s
+      IO.println s!"R st={k1} post={kindOf s.cause}{rdl s ws at2}"
       loop h { ds with s }
   | "O" :: _ =>
     match opsOf ds ws at_ with
@@ -215,7 +243,7 @@ partial def loop (h : IO.FS.Stream) (ds : DS) : IO Unit := do
       let dialT := ds.dialT || isDial
       let (s, k1, k2) := runOp ds.g ds.s ops at_ st post
       let nm (k : String) : String := if k == "wt" && dialT then "dt" else k
-      IO.println s!"R st={nm k1} post={nm k2}{handles ds.virt s}"
+      IO.println s!"R st={nm k1} post={nm k2}{handles ds.virt s}{rdl s ws (num ws "at2")}"
       -- the dial closure lives as long as that timer object: until the handle is dropped on an open conn
       let dialT := if !s.closed && !(s.t .w).h then false else dialT
       loop h { ds with s, dialT }
